@@ -24,6 +24,8 @@ boltons.strutils functions and compared with independent oracles:
 * gzip_bytes / gunzip_bytes: identity of the round trip; gzip.decompress as independent decoder.  Besides the exhaustive
   short strings a directed (non-exhaustive) ladder of bulk sizes: powers of two -1/+0/+1 up to 4 MiB (thorough: 64 MiB)
   and the integer constants found in boltons.strutils / gzip / io with neighbours and multiples, at every level.
+  Plus directed content extremes (runs of one byte, periodic and incompressible data, 64 KiB .. 16 MiB, thorough
+  128 MiB) at every level: ratio-dependent behaviour (plain/compressed up to ~1027:1 and below 1:1).
 * every call of a strutils function is the *second* call with equal arguments, after the first result was changed in
   place by the caller (inputs.second_call, applied to every callable of the module, decorator objects included).
 
@@ -1326,6 +1328,94 @@ def gzip_bulk_shard(spec):
     return t
 
 
+# content extremes x size x level: the bulk payload above compresses about 8:1 at every size.  A guard or a buffer that
+# depends on the *ratio* between compressed and plain size (a "decompression bomb" limit, an output buffer sized from the
+# input, an expected-size estimate) only shows on contents at the two ends of compressibility and in long streams, where
+# the fixed header/trailer no longer dominates.  Directed, NOT exhaustive: one payload per (kind, size).
+EXTREME_KINDS = ('run:00', 'run:ff', 'run:61', 'period:2', 'period:3', 'period:258', 'period:259', 'period:32768',
+                 'period:32769', 'noise', 'noise+run', 'run+noise', 'run-with-last-byte-different')
+_NOISE = {}
+
+
+def noise_bytes(n):
+    """n incompressible deterministic bytes (SHAKE-256 output stream; a prefix of a longer request)."""
+    import hashlib
+    have = _NOISE.get('data', b'')
+    if len(have) < n:
+        have = _NOISE['data'] = hashlib.shake_256(b'c14-noise').digest(n)
+    return have[:n]
+
+
+def extreme_payload(kind, n):
+    if kind.startswith('run:'):
+        return bytes([int(kind[4:], 16)]) * n
+    if kind.startswith('period:'):
+        p = int(kind[7:])
+        unit = noise_bytes(p)
+        return (unit * (n // p + 1))[:n]
+    if kind == 'noise':
+        return noise_bytes(n)
+    if kind == 'noise+run':
+        return noise_bytes(n // 2) + b'\x00' * (n - n // 2)
+    if kind == 'run+noise':
+        return b'\x00' * (n - n // 2) + noise_bytes(n // 2)
+    if kind == 'run-with-last-byte-different':
+        return b'\x00' * (n - 1) + b'\x01'
+    raise AssertionError(kind)
+
+
+ALL_LEVELS = (None, 1, 2, 3, 4, 5, 6, 7, 8, 9)
+FEW_LEVELS = (None, 1, 9)
+
+
+def _slow_kind(kind):
+    return 'noise' in kind or kind in ('period:32768', 'period:32769')      # measured: 4x and more CPU per byte
+
+
+def extreme_plan(tier):
+    """-> sorted list of (kind, size, level).  Sizes 2**k from 64 KiB; every level up to a middle size, the levels
+    default/1/9 above it; the longest runs (ratio closest to the DEFLATE limit of ~1032:1) again at every level."""
+    q = tier == 'quick'
+    plan = set()
+    for kind in EXTREME_KINDS:
+        if _slow_kind(kind):
+            full, top = (18, 20) if q else (22, 24)
+        elif kind.startswith('period:'):
+            full, top = (20, 22) if q else (24, 26)
+        elif kind == 'run:00':
+            full, top = (20, 24) if q else (26, 26)
+        else:
+            full, top = (20, 22) if q else (26, 26)
+        for k in range(16, top + 1):
+            for lv in (ALL_LEVELS if k <= full else FEW_LEVELS):
+                plan.add((kind, 2 ** k, lv))
+            if not q and k < top:
+                plan.add((kind, 3 * 2 ** k, None))
+    top = 24 if q else 27
+    plan.update(('run:00', 2 ** top, lv) for lv in (ALL_LEVELS if q else FEW_LEVELS))
+    plan.add(('run:00', 2 ** top + 1, None))
+    return sorted(plan, key=lambda x: (x[1], EXTREME_KINDS.index(x[0]), -1 if x[2] is None else x[2]))
+
+
+def gzip_extreme_shard(spec):
+    _, kind, n, level = spec
+    t = inputs.Tally()
+    case = {'family': 'gzip', 'extreme': kind, 'size': n, 'level': level, 'how': 'pos'}
+    t.count(nontrivial=True, sample=case)
+    t.add('bytes_round_tripped', n)
+    for sig, exp, obs in gzip_eval(extreme_payload(kind, n), level, 'pos'):
+        t.bad(sig, case, exp, obs, tags=['content-extreme', kind.split(':')[0]])
+    return t
+
+
+def extreme_ratios(plan):
+    """Measured: the largest and smallest plain/compressed ratio among the explored payloads (reference encoder)."""
+    n = max(x[1] for x in plan if x[0] == 'run:00')
+    m = max(x[1] for x in plan if x[0] == 'noise')
+    return {'largest (run, level 9)': round(n / len(gzip.compress(b'\x00' * n, 9, mtime=0)), 2),
+            'smallest (noise, level 1)': round(m / len(gzip.compress(noise_bytes(m), 1, mtime=0)), 5)}
+
+
 def gzip_eval(b, level, how):
     su = _su()
     v = []
@@ -1443,6 +1533,12 @@ def run(ctx):
     inputs.run_shards(ctx, gzip_bulk_shard, bulk, part='gzip:bulk-sizes',
                       rule='every payload is non-empty (7 bytes and more)')
     ctx.coverage['parts']['gzip:bulk-sizes']['exhaustive'] = False
+    plan = extreme_plan(ctx.tier)                       # simplest (shortest) first
+    noise_bytes(max(x[1] for x in plan if x[0] == 'noise'))        # built once, inherited by the forked workers
+    ext = [('ext',) + x for x in plan]
+    inputs.run_shards(ctx, gzip_extreme_shard, ext, part='gzip:content-extremes',
+                      rule='every payload is non-empty (64 KiB and more)')
+    ctx.coverage['parts']['gzip:content-extremes']['exhaustive'] = False
 
     cov = ctx.coverage
     cov['rule'] = ('a case is non-trivial when the encoder has something to do: shell/cmd lists containing an empty '
@@ -1496,7 +1592,20 @@ def run(ctx):
                           'exhaustive': False,
                           'note': 'directed size ladder (powers of two -1/+0/+1 and integer constants of '
                                   'boltons.strutils, gzip and io with neighbours and multiples); the content is not '
-                                  'enumerated, thresholds above the largest size are not reached'}},
+                                  'enumerated, thresholds above the largest size are not reached'},
+                 'content_extremes': {
+                     'kinds': list(EXTREME_KINDS),
+                     'largest_size_per_kind': {k: max(x[1] for x in plan if x[0] == k) for k in EXTREME_KINDS},
+                     'largest_size_at_every_level_per_kind': {
+                         k: max(x[1] for x in plan if x[0] == k and x[2] == 5) for k in EXTREME_KINDS},
+                     'sizes': '2**k from 2**16 (thorough: also 3 * 2**k at the default level)',
+                     'levels': 'default, 1..9 up to the second size, default/1/9 up to the first',
+                     'plain/compressed ratios reached': extreme_ratios(plan),
+                     'exhaustive': False,
+                     'note': 'directed: runs of one byte, short/match-length/window-length periods, incompressible '
+                             'SHAKE-256 output and halves of both, at 2**k bytes; a ratio-dependent limit beyond '
+                             'the ratios reached (DEFLATE maximum is about 1032:1, approached only by longer '
+                             'runs) is not reached'}},
     }
     ctx.assumptions += [
         'the text is used as the argument part of a command line (after a command name / program name): a word '
@@ -1551,6 +1660,8 @@ def replay(ctx, data):
             b = bulk_payload(case['bulk'])
         elif 'structured' in case:
             b = structured_bytes(case['structured'])
+        elif 'extreme' in case:
+            b = extreme_payload(case['extreme'], case['size'])
         else:
             b = bytes(case['bytes'])
         for v in gzip_eval(b, case['level'], case.get('how', 'pos')):
